@@ -15,6 +15,7 @@ import (
 	"fmt"
 	"os"
 	"sort"
+	"strings"
 	"time"
 
 	"github.com/gcash/bchd/blockchain"
@@ -36,9 +37,14 @@ var maxTxn uint32
 // ---------- synthetic blocks ----------
 type blk struct {
 	seed   uint64
+	kind   string // "" = plain (makeBlock); "dep:<order>" = makeDepBlock
 	b      *bchutil.Block
 	leaves []pmtref.Hash
 	header []byte
+	// dependent blocks only: the 20-byte item the filter is loaded with and the transactions
+	// that filter (BloomUpdateAll) must match whatever their order in the block
+	watch  []byte
+	expect []bool
 }
 
 // makeBlock builds a block of n distinct transactions (distinct lock times, values and previous
@@ -59,8 +65,12 @@ func makeBlock(seed uint64, n int) *blk {
 		tx.LockTime = uint32(i)
 		mb.AddTransaction(tx)
 	}
+	return finishBlock(mb, seed, n, "")
+}
+
+func finishBlock(mb *wire.MsgBlock, seed uint64, n int, kind string) *blk {
 	b := bchutil.NewBlock(mb)
-	out := &blk{seed: seed, b: b}
+	out := &blk{seed: seed, kind: kind, b: b}
 	for _, tx := range b.Transactions() {
 		out.leaves = append(out.leaves, pmtref.Hash(*tx.Hash()))
 	}
@@ -69,13 +79,129 @@ func makeBlock(seed uint64, n int) *blk {
 		mb.Header.MerkleRoot = *store[len(store)-1]
 		if pmtref.Hash(mb.Header.MerkleRoot) != pmtref.MerkleRoot(out.leaves) {
 			rep.Violate("C11:dep:merkle_root", "blockchain.BuildMerkleTreeStore root differs from the textbook merkle root",
-				map[string]interface{}{"block_seed": seed, "n": n})
+				map[string]interface{}{"block_seed": seed, "n": n, "block_kind": kind})
 		}
 	}
 	var buf bytes.Buffer
 	mb.Header.Serialize(&buf)
 	out.header = buf.Bytes()
 	return out
+}
+
+// makeDepBlock builds a block of n >= 2 transactions in which some transactions spend outputs of
+// other transactions of the same block, for the two filter-driven builders with an updating filter
+// (BloomUpdateAll): `chain` families P <- C <- G: P pays its output 0 to the watched pay-to-pubkey-hash
+// script (matched through the script; the filter then learns the outpoint P:0), C spends P:0 and pays
+// elsewhere (matched through that outpoint only, hence only once P has been seen), G spends C:0 (not
+// matched), among unrelated transactions.  order: "topo" (parents first), "reverse" (every child before its
+// parent, as canonical transaction ordering may place them), "shuffled".  The filter loaded with the
+// watched hash must match exactly the chain, wherever its members sit (bloom.GetMatchedIndices re-checks
+// children that precede their parent).  Deterministic in (seed, n, order, chain).
+func makeDepBlock(seed uint64, n int, order string, chain int) *blk {
+	r := vh.NewRNG(seed).Fork(fmt.Sprintf("dep%d/%s/%d", n, order, chain))
+	var prev chainhash.Hash
+	copy(prev[:], r.Bytes(32))
+	hdr := wire.NewBlockHeader(1, &prev, &chainhash.Hash{}, 0x1d00ffff, r.U32())
+	hdr.Timestamp = time.Unix(1231006505+int64(n), 0)
+	watch := r.Bytes(20)
+	p2pkh := append(append([]byte{0x76, 0xa9, 0x14}, watch...), 0x88, 0xac)
+	type gtx struct {
+		tx    *wire.MsgTx
+		chain bool // must be matched
+		fam   bool // member of a P <- C <- G family
+	}
+	var txs []gtx
+	spend := func(parent *wire.MsgTx, lock uint32, script []byte) *wire.MsgTx {
+		tx := wire.NewMsgTx(1)
+		if parent == nil {
+			var ph chainhash.Hash
+			copy(ph[:], r.Bytes(32))
+			tx.AddTxIn(wire.NewTxIn(wire.NewOutPoint(&ph, 7), []byte{0x51}))
+		} else {
+			h := parent.TxHash()
+			tx.AddTxIn(wire.NewTxIn(wire.NewOutPoint(&h, 0), []byte{0x51}))
+		}
+		tx.AddTxOut(wire.NewTxOut(int64(5000+lock), script, wire.TokenData{}))
+		tx.LockTime = lock
+		return tx
+	}
+	for i := 0; i < chain && len(txs)+2 <= n; i++ {
+		p := spend(nil, uint32(1000+3*i), p2pkh)         // matched: pays the watched script
+		c := spend(p, uint32(1001+3*i), []byte{0x51})    // matched only through the outpoint it spends
+		txs = append(txs, gtx{p, true, true}, gtx{c, true, true})
+		if i%2 == 0 && len(txs)+1 <= n {
+			g := spend(c, uint32(1002+3*i), []byte{0x51}) // not matched: its parent's output was not added
+			txs = append(txs, gtx{g, false, true})
+		}
+	}
+	for i := len(txs); i < n; i++ {
+		tx := wire.NewMsgTx(1)
+		var ph chainhash.Hash
+		copy(ph[:], r.Bytes(32))
+		tx.AddTxIn(wire.NewTxIn(wire.NewOutPoint(&ph, uint32(i)), []byte{0x51}))
+		tx.AddTxOut(wire.NewTxOut(int64(i)+1, []byte{0x51}, wire.TokenData{}))
+		tx.LockTime = uint32(i)
+		txs = append(txs, gtx{tx, false, false})
+	}
+	// placement
+	switch order {
+	case "topo":
+		// chain first, in dependency order, interleaved with unrelated transactions
+		var a, b []gtx
+		for _, t := range txs {
+			if t.fam {
+				a = append(a, t)
+			} else {
+				b = append(b, t)
+			}
+		}
+		txs = txs[:0]
+		for len(a) > 0 || len(b) > 0 {
+			if len(a) > 0 && (len(b) == 0 || r.Bool()) {
+				txs, a = append(txs, a[0]), a[1:]
+			} else {
+				txs, b = append(txs, b[0]), b[1:]
+			}
+		}
+	case "reverse":
+		var a, b []gtx
+		for _, t := range txs {
+			if t.fam {
+				a = append([]gtx{t}, a...)
+			} else {
+				b = append(b, t)
+			}
+		}
+		txs = txs[:0]
+		for len(a) > 0 || len(b) > 0 {
+			if len(a) > 0 && (len(b) == 0 || r.Bool()) {
+				txs, a = append(txs, a[0]), a[1:]
+			} else {
+				txs, b = append(txs, b[0]), b[1:]
+			}
+		}
+	default:
+		for i := len(txs) - 1; i > 0; i-- {
+			j := r.Intn(i + 1)
+			txs[i], txs[j] = txs[j], txs[i]
+		}
+	}
+	mb := wire.NewMsgBlock(hdr)
+	expect := make([]bool, len(txs))
+	for i, t := range txs {
+		mb.AddTransaction(t.tx)
+		expect[i] = t.chain
+	}
+	out := finishBlock(mb, seed, len(txs), fmt.Sprintf("dep:%s:%d", order, chain))
+	out.watch = watch
+	out.expect = expect
+	return out
+}
+
+func depFilter(bk *blk, tweak uint32) *bloom.Filter {
+	f := bloom.NewFilter(uint32(len(bk.leaves)+4), tweak, 0.0000001, wire.BloomUpdateAll)
+	f.Add(bk.watch)
+	return f
 }
 
 func hexHashes(hs []pmtref.Hash) []string {
@@ -185,8 +311,8 @@ func sameBuilt(a, b built) bool {
 
 // ---------- monitors ----------
 func replayOf(bk *blk, how string, sel []bool, o built) map[string]interface{} {
-	m := map[string]interface{}{"block_seed": bk.seed, "n": len(bk.leaves), "builder": how, "chosen": selString(sel),
-		"note": "block = makeBlock(block_seed, n) of harness/cmd/c11 (n synthetic transactions); chosen[i]=1: transaction i is in the set / matched by the filter"}
+	m := map[string]interface{}{"block_seed": bk.seed, "n": len(bk.leaves), "block_kind": bk.kind, "builder": how, "chosen": selString(sel),
+		"note": "block = makeBlock(block_seed, n) of harness/cmd/c11 (n synthetic transactions; block_kind dep:<order>:<chain> = makeDepBlock, filter = the watched hash with BloomUpdateAll); chosen[i]=1: transaction i is in the set / matched by the filter"}
 	if len(bk.leaves) <= 16 {
 		m["txids"] = hexHashes(bk.leaves)
 	}
@@ -451,6 +577,74 @@ func addBuildFilter(bk *blk, sel, matched []bool, a, b built) {
 			"mb_flags": hex.EncodeToString(a.Flags), "bloom_flags": hex.EncodeToString(b.Flags)})
 }
 
+// ---------- messages stay what they were; the block is not written to ----------
+// A built message is remembered together with the snapshot taken when it was returned and looked at
+// again after later builder calls (on other blocks and subsets): storage shared between two results,
+// or state kept by a builder between calls, shows up as a changed earlier message.
+type kept struct {
+	bk  *blk
+	how string
+	sel []bool
+	o   built
+}
+
+var keptRing []kept
+
+func unchanged(o built) bool {
+	m := o.msg
+	if m == nil {
+		return true
+	}
+	if m.Transactions != o.Count || !bytes.Equal(m.Flags, o.Flags) || len(m.Hashes) != len(o.Hashes) {
+		return false
+	}
+	for i, h := range m.Hashes {
+		if h == nil || pmtref.Hash(*h) != o.Hashes[i] {
+			return false
+		}
+	}
+	var buf bytes.Buffer
+	m.Header.Serialize(&buf)
+	return bytes.Equal(buf.Bytes(), o.Header)
+}
+
+func checkKept() {
+	for _, k := range keptRing {
+		if !unchanged(k.o) {
+			r := replayOf(k.bk, k.how, k.sel, k.o)
+			r["now_flags"] = hex.EncodeToString(k.o.msg.Flags)
+			r["now_hash_count"] = len(k.o.msg.Hashes)
+			rep.Violate("C11:stable:"+k.how, "a message returned earlier is no longer what was returned (it changed while later messages were built)", r)
+		}
+	}
+}
+
+func keep(bk *blk, how string, sel []bool, o built) {
+	if o.Panic != "" {
+		return
+	}
+	keptRing = append(keptRing, kept{bk, how, append([]bool(nil), sel...), o})
+	if len(keptRing) > 6 {
+		keptRing = keptRing[len(keptRing)-6:]
+	}
+}
+
+// checkBlockIntact: building must not write to the block it was given.
+func checkBlockIntact(bk *blk, how string, sel []bool) {
+	var buf bytes.Buffer
+	bk.b.MsgBlock().Header.Serialize(&buf)
+	same := bytes.Equal(buf.Bytes(), bk.header) && len(bk.b.Transactions()) == len(bk.leaves)
+	for i, tx := range bk.b.Transactions() {
+		if !same {
+			break
+		}
+		same = pmtref.Hash(*tx.Hash()) == bk.leaves[i] && pmtref.Hash(tx.MsgTx().TxHash()) == bk.leaves[i]
+	}
+	if !same {
+		rep.Violate("C11:input_mutated:"+how, "the block (header, transaction ids) differs after building a merkle block from it", replayOf(bk, how, sel, built{Panic: "n/a"}))
+	}
+}
+
 // ---------- one (block, subset) through everything ----------
 var distinctTrees = map[string]bool{}
 
@@ -458,15 +652,36 @@ func runSubset(bk *blk, sel []bool, r *vh.RNG, corrSet, corrFilter bool, family 
 	n := len(bk.leaves)
 	key := fmt.Sprintf("%d/%s", n, selString(sel))
 	rep.Count(family, key, true)
-	// by transaction set
-	o, set := byTxnSet(bk, sel, r, r.Chance(1, 3))
-	checkBuilt(bk, "NewMerkleBlockWithTxnSet", sel, o)
-	if corrSet {
-		addBuildSet(bk, sel, set, o)
+	checkKept()
+	// by transaction set (TxInSet is a linear scan per transaction: skipped when |set| * n is huge)
+	chosenCount := 0
+	for _, s := range sel {
+		if s {
+			chosenCount++
+		}
+	}
+	var o built
+	if chosenCount*n <= 40000000 {
+		var set []pmtref.Hash
+		o, set = byTxnSet(bk, sel, r, r.Chance(1, 3))
+		checkBuilt(bk, "NewMerkleBlockWithTxnSet", sel, o)
+		if corrSet {
+			addBuildSet(bk, sel, set, o)
+		}
+	} else {
+		o.Panic = "skipped"
+		rep.Histogram["skipped:txnset_too_big"]++
 	}
 	// by filter, both builders
 	a, b, matched := byFilter(bk, sel, r.U32())
 	rep.Evaluations += 2
+	if n <= 4096 || r.Chance(1, 4) {
+		checkBlockIntact(bk, "any", sel)
+	}
+	checkKept()
+	keep(bk, "NewMerkleBlockWithTxnSet", sel, o)
+	keep(bk, "NewMerkleBlockWithFilter", matched, a)
+	keep(bk, "bloom.NewMerkleBlock", matched, b)
 	for i, s := range sel {
 		if s && !matched[i] {
 			rep.Violate("C11:dep:filter_false_negative", "a transaction whose id was added to the filter is not matched (C09/C10)", replayOf(bk, "GetMatchedIndices", sel, built{Panic: "n/a"}))
@@ -483,6 +698,104 @@ func runSubset(bk *blk, sel []bool, r *vh.RNG, corrSet, corrFilter bool, family 
 	}
 	if corrFilter {
 		addBuildFilter(bk, sel, matched, a, b)
+	}
+}
+
+// nearMiss: the transaction set holds, besides the chosen ids, ids that differ from an id of the
+// block that is NOT chosen in a single bit (of byte `at`), and ids of chosen transactions with one bit
+// flipped: none of them may select anything.
+func nearMiss(bk *blk, sel []bool, r *vh.RNG, at int, corr bool) {
+	n := len(bk.leaves)
+	rep.Count("near_miss", fmt.Sprintf("%d/%s/%d", n, selString(sel), at), true)
+	var set []pmtref.Hash
+	for i, s := range sel {
+		if s {
+			set = append(set, bk.leaves[i])
+		}
+	}
+	for i, s := range sel {
+		if !s || r.Chance(1, 4) {
+			f := bk.leaves[i]
+			f[at] ^= 1 << uint(r.Intn(8))
+			set = append(set, f)
+		}
+	}
+	for i := len(set) - 1; i > 0; i-- {
+		j := r.Intn(i + 1)
+		set[i], set[j] = set[j], set[i]
+	}
+	o := observe(func() (*wire.MsgMerkleBlock, []uint32) { return merkleblock.NewMerkleBlockWithTxnSet(bk.b, ptrs(set)) })
+	rep.Evaluations++
+	checkBuilt(bk, "NewMerkleBlockWithTxnSet", sel, o)
+	for _, id := range set { // TxInSet itself, against plain membership
+		h := chainhash.Hash(id)
+		in := false
+		for _, x := range set {
+			in = in || x == id
+		}
+		if !merkleblock.TxInSet(&h, ptrs(set)) || !in {
+			rep.Violate("C11:tx_in_set", "TxInSet does not find a member of the set", replayOf(bk, "TxInSet", sel, o))
+		}
+	}
+	for i, s := range sel {
+		h := chainhash.Hash(bk.leaves[i])
+		if merkleblock.TxInSet(&h, ptrs(set)) != s {
+			r := replayOf(bk, "TxInSet", sel, o)
+			r["txnset"] = hexHashes(set)
+			r["queried_index"] = i
+			rep.Violate("C11:tx_in_set", "TxInSet(id, set) differs from 'id is an element of set' (the set holds ids one bit away from ids of the block)", r)
+			break
+		}
+	}
+	if corr {
+		addBuildSet(bk, sel, set, o)
+	}
+}
+
+// runDep: a block with in-block spends and an updating filter through both filter-driven builders
+// (and the set-driven one with the ids the filter selects).
+func runDep(bk *blk, r *vh.RNG, corr bool) {
+	n := len(bk.leaves)
+	tweak := r.U32()
+	mm := bloom.GetMatchedIndices(bk.b, depFilter(bk, tweak))
+	matched := make([]bool, n)
+	extra := false
+	for i := range matched {
+		matched[i] = mm[i]
+		if bk.expect[i] && !matched[i] {
+			rep.Violate("C11:dep:matched_indices", "bloom.GetMatchedIndices misses a transaction that pays the watched script or spends a matched output (C10)", replayOf(bk, "GetMatchedIndices", bk.expect, built{Panic: "n/a"}))
+		}
+		extra = extra || (matched[i] && !bk.expect[i])
+	}
+	if extra {
+		rep.Histogram["dep:filter_false_positive"]++
+	}
+	rep.Count("dependent:"+bk.kind[4:4+3], fmt.Sprintf("%s/%d/%s", bk.kind, n, selString(matched)), true)
+	checkKept()
+	a := observe(func() (*wire.MsgMerkleBlock, []uint32) {
+		return merkleblock.NewMerkleBlockWithFilter(bk.b, depFilter(bk, tweak))
+	})
+	b := observe(func() (*wire.MsgMerkleBlock, []uint32) { return bloom.NewMerkleBlock(bk.b, depFilter(bk, tweak)) })
+	rep.Evaluations += 2
+	checkBuilt(bk, "NewMerkleBlockWithFilter", matched, a)
+	checkBuilt(bk, "bloom.NewMerkleBlock", matched, b)
+	if a.Panic == "" && b.Panic == "" && !sameBuilt(a, b) {
+		rp := replayOf(bk, "bloom.NewMerkleBlock", matched, b)
+		rp["merkleblock_flags"] = hex.EncodeToString(a.Flags)
+		rp["merkleblock_hash_count"] = len(a.Hashes)
+		rp["merkleblock_indices"] = a.Indices
+		rep.Violate("C11:builders_agree", "bloom.NewMerkleBlock and merkleblock.NewMerkleBlockWithFilter differ for the same block and filter", rp)
+	}
+	o, set := byTxnSet(bk, matched, r, r.Bool())
+	rep.Evaluations++
+	checkBuilt(bk, "NewMerkleBlockWithTxnSet", matched, o)
+	checkBlockIntact(bk, "any", matched)
+	checkKept()
+	keep(bk, "NewMerkleBlockWithFilter", matched, a)
+	keep(bk, "bloom.NewMerkleBlock", matched, b)
+	if corr {
+		addBuildFilter(bk, matched, matched, a, b)
+		addBuildSet(bk, matched, set, o)
 	}
 }
 
@@ -546,18 +859,40 @@ func replay(path string) {
 		Input struct {
 			Seed   uint64 `json:"block_seed"`
 			N      int    `json:"n"`
+			Kind   string `json:"block_kind"`
 			Chosen string `json:"chosen"`
 		} `json:"input"`
 	}
 	b, err := os.ReadFile(path)
 	vh.Must(err)
 	vh.Must(json.Unmarshal(b, &rp))
+	if strings.HasPrefix(rp.Input.Kind, "dep:") {
+		var order string
+		var chain int
+		parts := strings.Split(rp.Input.Kind, ":")
+		if len(parts) == 3 {
+			order = parts[1]
+			fmt.Sscan(parts[2], &chain)
+		}
+		runDep(makeDepBlock(rp.Input.Seed, rp.Input.N, order, chain), vh.NewRNG(1), false)
+		return
+	}
 	bk := makeBlock(rp.Input.Seed, rp.Input.N)
 	sel := make([]bool, rp.Input.N)
 	for i := range sel {
 		sel[i] = i < len(rp.Input.Chosen) && rp.Input.Chosen[i] == '1'
 	}
 	runSubset(bk, sel, vh.NewRNG(1), false, false, "replay")
+	for _, at := range []int{0, 15, 31} {
+		nearMiss(bk, sel, vh.NewRNG(1), at, false)
+	}
+	// a second, different subset on the same block so that a message kept from the first is looked at again
+	other := make([]bool, len(sel))
+	for i := range other {
+		other[i] = !sel[i]
+	}
+	runSubset(bk, other, vh.NewRNG(2), false, false, "replay")
+	checkKept()
 }
 
 func main() {
@@ -612,6 +947,11 @@ func main() {
 		}
 	}
 
+	tFam := time.Now()
+	lap := func(name string) {
+		rep.Extra["seconds_"+name] = time.Since(tFam).Seconds()
+		tFam = time.Now()
+	}
 	// 1. every n <= 12 with all 2^n subsets (monitors); a sample to Coq
 	allMax := cfg.Scale(12, 15)
 	if cfg.Search {
@@ -632,6 +972,7 @@ func main() {
 		}
 	}
 
+	lap("all_subsets")
 	// 2. every n <= 65 (quick) / 130 (thorough) with structured and random subsets
 	rs := rng.Fork("structured")
 	upper := cfg.Scale(65, 200)
@@ -648,7 +989,35 @@ func main() {
 		}
 	}
 
-	// 3. big blocks: byte-sized counters, multiples of 256 chosen transactions, deep trees (monitors only)
+	lap("structured")
+	// 2b. transaction sets holding ids one bit away from ids of the block (every byte position)
+	rm := rng.Fork("near_miss")
+	for n := 1; n <= cfg.Scale(24, 64); n++ {
+		bk := makeBlock(cfg.Seed, n)
+		for at := 0; at < 32; at++ {
+			sel := make([]bool, n)
+			for i := range sel {
+				sel[i] = rm.Chance(1+at%3, 4)
+			}
+			nearMiss(bk, sel, rm, at, corr && n <= 12 && at == (5*n)%32)
+		}
+	}
+
+	lap("near_miss")
+	// 2c. blocks with in-block spends and an updating filter (children before / after their parents)
+	rd := rng.Fork("dependent")
+	for n := 2; n <= cfg.Scale(40, 120); n++ {
+		for oi, order := range []string{"topo", "reverse", "shuffled"} {
+			for ci, chain := range []int{1, 2, 1 + rd.Intn(n/2+1)} {
+				bk := makeDepBlock(cfg.Seed, n, order, chain)
+				runDep(bk, rd, corr && n <= 24 && (n+oi)%3 == 0 && ci == n%3)
+			}
+		}
+	}
+
+	lap("dependent")
+	// 3. big blocks: byte-sized counters, multiples of 256 chosen transactions, deep trees (monitors; the
+	// 8-bit boundary sizes also go to Coq), and the 16-bit boundary 65535..65537
 	rb := rng.Fork("big")
 	sizes := []int{255, 256, 257, 300, 511, 512, 513, 1000, 1024, 1025}
 	if cfg.Thorough() || cfg.Search {
@@ -657,7 +1026,11 @@ func main() {
 	for i := 0; i < cfg.Scale(6, 20); i++ {
 		sizes = append(sizes, 66+rb.Intn(cfg.Scale(3000, 6000)))
 	}
+	sizes = append(sizes, 65535, 65536, 65537)
 	for _, n := range sizes {
+		if n == 65535 {
+			lap("big_below_2^16")
+		}
 		bk := makeBlock(cfg.Seed, n)
 		st := structured(n, rb)
 		first256 := make([]bool, n)
@@ -674,13 +1047,30 @@ func main() {
 		}
 		st["even"] = ev
 		for _, name := range sortedKeys(st) {
-			runSubset(bk, st[name], rb, false, false, "big:"+name)
+			if n >= 60000 {
+				switch name {
+				case "last_two", "first_and_last", "right_edge", "sparse", "even":
+				case "full", "dense", "1_and_n/2":
+					if !cfg.Thorough() && !cfg.Search {
+						continue
+					}
+				default:
+					continue
+				}
+			}
+			// Coq: the sizes around 256 with the selections that put 255/256/257 chosen transactions below one node
+			c := corr && n >= 255 && n <= 257 && (name == "full" || name == "first_256_and_last")
+			runSubset(bk, st[name], rb, c, false, "big:"+name)
 		}
 	}
+	checkKept()
+	lap("big_2^16")
 
 	rep.Sample(map[string]interface{}{"family": "all_subsets", "what": fmt.Sprintf("every n <= %d with all 2^n subsets, three builders + extraction each", allMax)}, 4)
 	rep.Sample(map[string]interface{}{"family": "structured", "what": fmt.Sprintf("every n <= %d: empty, full, every singleton, first/last, right edge, {0,4}, sparse, dense", upper)}, 4)
-	rep.Sample(map[string]interface{}{"family": "big", "what": "n in 255..1025 (to 5000 thorough) and random: full, first 256 (+last), even, right edge, ..."}, 4)
+	rep.Sample(map[string]interface{}{"family": "big", "what": "n in 255..1025 (to 5000 thorough) and random: full, first 256 (+last), even, right edge, ...; n = 65535, 65536, 65537: last two, first and last, right edge, sparse, even (thorough: full, dense)"}, 4)
+	rep.Sample(map[string]interface{}{"family": "near_miss", "what": "transaction sets with ids one bit (every byte position) away from ids of the block; TxInSet against plain membership"}, 4)
+	rep.Sample(map[string]interface{}{"family": "dependent", "what": "blocks with in-block spends (parent pays the watched script, child matched only through the outpoint, grandchild unmatched) in topological, reversed and shuffled order; updating filter through both filter-driven builders"}, 4)
 	if corr {
 		_, err := cases.Flush()
 		vh.Must(err)
